@@ -185,8 +185,8 @@ def candidate_values(od, p, rng):
 def make_scenarios(ctx, od):
     rng = ctx.rng
     pool, extra = param_pool()
-    per_sampler = ({"random": 50, "tpe": 50, "tpe_mv": 60, "qmc": 40, "gp": 10, "nsga2": 40, "nsga3": 20, "partial": 30,
-                    "brute": 20, "grid": 20} if ctx.quick else
+    per_sampler = ({"random": 60, "tpe": 60, "tpe_mv": 70, "qmc": 50, "gp": 12, "nsga2": 50, "nsga3": 25, "partial": 40,
+                    "brute": 25, "grid": 25} if ctx.quick else
                    {"random": 700, "tpe": 700, "tpe_mv": 800, "qmc": 600, "gp": 120, "nsga2": 500, "nsga3": 300,
                     "partial": 400, "brute": 300, "grid": 300})
     scs = []
@@ -498,13 +498,14 @@ _THREAD_ENV = ("OMP_NUM_THREADS", "OPENBLAS_NUM_THREADS", "MKL_NUM_THREADS", "NU
 
 
 def execute(scs, workers=16):
-    """Run the scenarios on a pool of freshly spawned single-threaded interpreters (BLAS/OpenMP pools of 16 forked
-    workers spinning against each other made the run 20x slower on a loaded machine)."""
+    """Run the scenarios on a pool of freshly spawned interpreters with single-threaded BLAS/OpenMP (16 workers on a
+    shared machine must not start 16 threads each); GP scenarios, the slow ones, go first in chunks of their own."""
     for s in scs:
         s["scratch"] = tlc.scratch()          # the parent's per-run directory (removed by the CLI on exit)
     slow = [s for s in scs if s["sampler"] == "gp"]
     rest = [s for s in scs if s["sampler"] != "gp"]
-    chunks = [slow[i:i + 2] for i in range(0, len(slow), 2)] + [rest[i:i + 8] for i in range(0, len(rest), 8)]
+    n_chunks = max(1, len(rest) // 8)
+    chunks = [slow[i:i + 2] for i in range(0, len(slow), 2)] + [rest[i::n_chunks] for i in range(n_chunks)]
     results = {}
     saved = {k: os.environ.get(k) for k in _THREAD_ENV}
     for k in _THREAD_ENV:
@@ -633,7 +634,7 @@ def run(ctx):
 
     def out_of_domain(t):
         for e in t["ev"]:
-            if e["a"] == "suggest" and e["name"] == "p0" and e["d"]["cls"] == "Int":
+            if e["a"] == "suggest" and e["name"] == "p0" and e["d"]["cls"] == "Int" and e["exc"] == 0:
                 e["o"]["fl"] = e["o"]["ce"] = e["o"]["near"] = e["d"]["hi"] + e["d"]["step"]
     ctx.binding_selftest("SuggestTrace", "SuggestTrace", pick(lambda t: any(e.get("same") == 1 for e in t["ev"])),
                          flip_same, "repeated call differs")
@@ -641,7 +642,8 @@ def run(ctx):
                          flip_stored, "stored value differs")
     ctx.binding_selftest("SuggestTrace", "SuggestTrace",
                          pick(lambda t: t["ev"][0]["fixed"] == {} and t["ev"][0]["sfixed"] == {} and
-                              any(e["a"] == "suggest" and e["name"] == "p0" and e["d"]["cls"] == "Int" for e in t["ev"])),
+                              any(e["a"] == "suggest" and e["name"] == "p0" and e["d"]["cls"] == "Int" and e["exc"] == 0
+                                  and e["same"] == -1 for e in t["ev"])),
                          out_of_domain, "value above high")
     ctx.assumptions += [
         "D7: an enqueued / PartialFixedSampler value outside the declared domain is returned as it is (the code warns)",
